@@ -13,7 +13,7 @@ EXTENDS Errors, Json, IOUtils
 
 EC == INSTANCE ErrorChannel WITH Kinds <- {}, CheckFaults <- {}, InferFaults <- {}, Msgs <- {}, OutsiderMsgs <- {},
                                  InferMsgs <- {}, MaxN <- 1, Variants <- 1,
-                                 c <- 0, pc <- "trace", origin <- 0, inner <- 0, esc <- 0, trail <- <<>>
+                                 c <- 0, pc <- "trace", origin <- 0, inner <- 0, esc <- 0, ret <- 0, trail <- <<>>
 
 Trace == ndJsonDeserialize(IOEnv.TRACE_FILE)
 VARIABLE l
